@@ -158,6 +158,22 @@ def shaped(ctx, g):
         i["structs"][0]["fields"] = [{"name": "Name", "type": "string", "ptr": False, "alias": None, "json": None},
                                      {"name": "Note", "type": "string", "ptr": True, "alias": None, "json": "note"}]
         out.append(("large%d" % vi, i, calls_for(g, i, 5, large=0.8)))
+    # a parameter whose OWN NAME is a placeholder that ANOTHER parameter fills through an alias: it is a query parameter
+    for vi, verb in enumerate(("GET", "DELETE")):
+        i = g.iface(name="Client", nmethods=1, ctx=True, verb=verb, struct=False, dict=False, nscalar=0, nph=0)
+        m = i["methods"][0]
+        m.update({"path": "/tenants/{id}/users/{kind}", "quoted": True, "alias": [("tenantID", "id")], "tail": "", "aliastail": "",
+                  "params": [{"name": "tenantID", "kind": "scalar", "type": "string", "ptr": False, "role": "path"},
+                             {"name": "id", "kind": "scalar", "type": "int", "ptr": False, "role": "query"},
+                             {"name": "kind", "kind": "scalar", "type": "string", "ptr": False, "role": "path"},
+                             {"name": "name", "kind": "scalar", "type": "string", "ptr": vi == 1, "role": "query"}]})
+        i["structs"] = []
+        out.append(("ownname%d" % vi, i, calls_for(g, i, 4)))
+    # unusual base URLs: query string, userinfo, escaped path characters, IPv6 host with port, trailing slashes
+    for vi, base in enumerate(restgen.ODD_BASES):
+        i = g.iface(name="Client", nmethods=2, ctx=True, verb=restgen.VERBS[vi % 5])
+        i["base"] = base
+        out.append(("base%d" % vi, i, calls_for(g, i, 2)))
     # Rejected: two parameters with the same alias (62d8144: diagnosed, exit 1, no file)
     for verb in ("GET", "PUT"):
         i = g.iface(name="Client", nmethods=2, ctx=True, verb=verb, nscalar=3, nph=1)
@@ -285,9 +301,9 @@ def apply_ext(ctx, cases, model):
                 if k.endswith(".path"):
                     reqs.append({"id": c["id"], "key": side + "|" + k, "op": "joinpath", "base": c["iface"]["base"], "path": sexp.parse(d[k])})
                 elif k.endswith(".query"):
-                    reqs.append({"id": c["id"], "key": side + "|" + k, "op": "encode", "pairs": [[str(a), str(b)] for a, b in sexp.parse(d[k])]})
+                    reqs.append({"id": c["id"], "key": side + "|" + k, "op": "encode", "base": c["iface"]["base"], "pairs": [[str(a), str(b)] for a, b in sexp.parse(d[k])]})
                 elif k.endswith(".hdr"):
-                    reqs.append({"id": c["id"], "key": side + "|" + k, "op": "header", "pairs": [[str(a), str(b)] for a, b in sexp.parse(d[k])]})
+                    reqs.append({"id": c["id"], "key": side + "|" + k, "op": "header", "base": c["iface"]["base"], "pairs": [[str(a), str(b)] for a, b in sexp.parse(d[k])]})
     exe = ctx.harness("rtconf")
     p = core.run([exe, "ext"], input="\n".join(json.dumps(r) for r in reqs) + "\n", timeout=900)
     if p.returncode != 0:
@@ -476,7 +492,8 @@ def run(ctx, obl):
                 "json.Marshal by the oracle on the same argument. non-trivial = distinct interface+calls with at least one call inside the quantifier")
     res.rule += ("; plus an in-process differential of the five directive recognisers against the real regexps of cook.go on %s random and rendered texts"
                  % res.extra.get("recogniser_strings_compared"))
-    res.assumptions = ["url.JoinPath, url.Values.Encode, http.Header.Add, json.Marshal, fmt %v are the real ones on both sides",
+    res.assumptions = ["http.Client turns the userinfo of the request URL into a Basic Authorization header (net/http behaviour, applied to the expected header set)",
+                       "url.JoinPath, url.Values.Encode, http.Header.Add, json.Marshal, fmt %v are the real ones on both sides",
                        "the doc text handed to the recognisers is ast.CommentGroup.Text() of the rendered comment (reconstructed by the renderer)",
                        "base URLs are well-formed absolute URLs without a query"]
     return res
